@@ -456,7 +456,7 @@ def varr_json(a):
 def state_json(f):
     return dict(mesh=mesh_json(f.mesh), nvdim=int(f.nvdim), data=darr_json(f.array), valid=varr_json(f.valid),
                 vdims=(_strs(f.vdims) if f.vdims is not None else None),
-                vmap=[[k, v] for k, v in f.vdim_mapping.items() if v is not None] if isinstance(f.vdim_mapping, dict) else [],
+                vmap=sorted([[k, v] for k, v in f.vdim_mapping.items() if v is not None]) if isinstance(f.vdim_mapping, dict) else [],   # a dict: its order is not part of the state
                 unit=f.unit if (f.unit is None or type(f.unit) is str) else f"<{type(f.unit).__name__}>")
 
 
